@@ -310,9 +310,41 @@ def limit_memory():
         pass
 
 
+def start_line_coverage():
+    """VERIF_COVERAGE=<prefix>: record which lines of geomdl this worker executes (sys.monitoring, each line once) and dump
+    them to <prefix>.<pid>.json at exit.  A development aid (tools/coverage_report.py), not part of any check."""
+    prefix = os.environ.get("VERIF_COVERAGE")
+    if not prefix or not hasattr(sys, "monitoring"):
+        return
+    import atexit
+    mon = sys.monitoring
+    tool = mon.COVERAGE_ID
+    root = os.path.join(os.path.abspath(core.repo_root()), "geomdl")
+    seen = set()
+
+    def on_line(code, line):
+        fn = code.co_filename
+        if fn.startswith(root):
+            seen.add((os.path.relpath(fn, root), line))
+        return mon.DISABLE
+
+    try:
+        mon.use_tool_id(tool, "verif-lines")
+    except ValueError:
+        return
+    mon.register_callback(tool, mon.events.LINE, on_line)
+    mon.set_events(tool, mon.events.LINE)
+
+    def dump():
+        with open("%s.%d.json" % (prefix, os.getpid()), "w") as f:
+            json.dump(sorted(seen), f)
+    atexit.register(dump)
+
+
 def main(argv):
     pid, mode = argv[0], argv[1]
     limit_memory()
+    start_line_coverage()
     import geomdl
     root = os.path.abspath(core.repo_root())
     if not os.path.abspath(geomdl.__file__).startswith(root):
